@@ -259,3 +259,23 @@ def error_key_in_data(k: str, v: int, via: int) -> bool:
     want = ref.run(asl, {}, ctx_for(), None)
     got = run_engine(asl, {}, None)
     return agree(got, want)
+
+
+@condition(timeout={"quick": 120, "thorough": 300}, functions=["start_execution ($$.Execution.Input)", "asl_state_Pass", "apply_path ($$ paths)", "apply_resultpath"])
+def execution_input_in_context(x: int, has_a: bool, has_b: bool, rp: int, ip: int) -> bool:
+    """
+    requires: 0 <= x <= 1 and 0 <= rp < 5 and ip in (0, 2)
+    ensures: _
+    """
+    # the first state places a result into its input; a later state must still read the execution's ORIGINAL input
+    # through $$.Execution.Input (started by an event that carries no Execution.Input of its own)
+    p = {"Type": "Pass", "Result": {"res": 1}, "Next": "Q"}
+    setf(p, "ResultPath", pick(RPATHS, rp)); setf(p, "InputPath", pick(IPATHS, ip))
+    q = {"Type": "Pass", "Parameters": {"orig.$": "$$.Execution.Input", "cur.$": "$"}, "End": True}
+    asl = {"StartAt": "P", "States": {"P": p, "Q": q}}
+    data = mkdoc(x, has_a, has_b)
+    ctx = ctx_for()
+    ctx["Execution"]["Input"] = copy.deepcopy(data)
+    want = ref.run(asl, copy.deepcopy(data), ctx, None)
+    got = run_engine(asl, data, None)
+    return agree(got, want)
